@@ -347,12 +347,10 @@ func doReplay(p Prop, in, out string) {
 func doTable(tp TableProp, in, out, tier string, seed int64) {
 	rows := readEvents(in)
 	rep := &TableReport{Rows: len(rows), Classes: map[string]int{}}
-	// table comparisons are CPU-bound enumerations: only a generous global limit applies
-	go func() {
-		time.Sleep(45 * time.Minute)
-		fmt.Fprintln(os.Stderr, "gotsverif: HANG table comparison did not finish in 45 minutes")
-		os.Exit(3)
-	}()
+	// a row (table row, or one model behaviour replayed on the real object) that does not complete is a hang
+	wdOut = filepath.Dir(out)
+	os.Remove(filepath.Join(wdOut, "hang.ndjson"))
+	startWatchdog(2 * hangLimit())
 	tp.Table(rows, tier, seed, rep)
 	if len(rep.Mismatches) > 200 {
 		rep.Mismatches = rep.Mismatches[:200]
